@@ -80,11 +80,53 @@ NEEDS = {
            "the clock crosses RevokeCheckInterval once, then >= 2 encrypts on a session with no decrypt in between"),
  "C20-B": ("write's latest-map update loses the ordering check: loading an older generation re-points 'latest' at it",
            "two key generations, a fresh session that loads the newer key, then the older one, then uses the latest path again"),
+
+ # ---- round 2 (agents were told what round 1 had produced and asked for different mechanisms and sites)
+ "C01-C": ("sharedEncryption.Remove waits once ('if' instead of 'for'): an evicted cached session is torn down when the first of several holders closes",
+           "session cache on, >= 2 holders of one partition's session, eviction while held, one holder closes, the other keeps using it"),
+ "C01-D": ("keyCache.load deletes + closes a superseded latest key, but simpleCache.Delete never removes: the destroyed key stays cached",
+           "default 'simple' key cache and a rotation discovered through the stale path (loader returns a key with another Created), then an old record is decrypted through that cache"),
+ "C02-C": ("key rows are stamped with newKeyTimestamp() at store time instead of the key's own Created",
+           "a CreateDatePrecision tick passes between key generation and Store (e.g. during the KMS round trip) in a cold or rotating state"),
+ "C02-D": ("IK row's ParentKeyMeta built by a method promoted from defaultPartition: names the unsuffixed SK id",
+           "a region-suffixing metastore, an IK creation, and a reader without that IK cached"),
+ "C03-C": ("GetOrLoadLatest fast path returns the entry it last handed out without comparing the requested id",
+           "shared IK cache and >= 2 partitions encrypting through one factory within one interval with no cache write in between"),
+ "C03-D": ("SK / IK ids cut to 255 bytes: partitions sharing a 251-byte prefix share one IK",
+           "partition ids long enough for the IK id to exceed 255 bytes"),
+ "C04-C": ("isEnvelopeInvalid measures expiry against the clock truncated to CreateDatePrecision",
+           "an IK is created in the window between the SK's true expiry and one precision unit later"),
+ "C04-D": ("getValidIntermediateKey checks the SK's expiry against the IK record's Created",
+           "an IK younger than its SK, the SK's expiry crossed while the IK is still valid, encrypts continuing afterwards"),
+ "C05-C": ("intermediateKeyFromEKR takes the IK's revoked flag from the SK: the decrypt refresh path resets a revoked IK to valid",
+           "IK cache on, a revoked latest IK, and a decrypt of an old record before the encrypt once the entry is stale"),
+ "C05-D": ("GetOrLoad returns the stale cached key when the re-check's reload fails",
+           "SK and IK caches on, a revoked parent SK and a metastore Load / KMS error exactly at the SK re-check"),
+ "C06-C": ("session cache keys sessions by strings.ToLower(partition id)",
+           "CacheSessions on and two partition ids equal after lower-casing, the first still cached"),
+ "C06-D": ("empty-partition guard moved behind the session-cache fast path",
+           "CacheSessions on and GetSession(\"\")"),
+ "C07-C": ("GetOrLoad handles a miss under RLock: concurrent map writes crash the process",
+           ">= 2 goroutines missing in the same key cache at once"),
+ "C07-D": ("suffixedPartition.IsValidIntermediateKeyID slices at the last underscore: panics for ids without one",
+           "region-suffixing metastore and a record whose ParentKeyMeta.ID contains no underscore"),
+ "C08-C": ("GetOrLoadLatest's reload branch additionally Closes the invalid key (releases a reference it does not own)",
+           "a long-lived key cache, the latest key becoming invalid while cached, then an encrypt; shows in a concurrent holder or a later decrypt of an old record"),
+ "C08-D": ("cacheWrapper.Get increments the usage count after releasing the wrapper mutex",
+           "session cache with more live partitions than slots and an evicting Get between another goroutine's lookup and its pin"),
+ "C09-C": ("slru demotion leaves the protected flag set (ghost entries): evictions re-evict the ghost, real keys are never released",
+           "slru (or tinylfu) key cache, > 80% of capacity re-accessed, then enough new keys to evict the demoted entry"),
+ "C09-D": ("sharedEncryption.Remove waits once: session torn down under remaining holders / keys loaded afterwards never released",
+           "CacheSessions with per-session IK caches, a session held by two callers when evicted, one closes, the other keeps working"),
+ "C10-C": ("systemKeyFromEKR returns on ctx.Err() between KMS.DecryptKey and NewCryptoKey without wiping",
+           "an SK cache miss whose caller's context is cancelled by the time the KMS call returns"),
+ "C10-D": ("aws-v2 encryptAllRegions gives each region a private copy of the data key that is never wiped",
+           "aws-v2 plugin with >= 2 regions creating or rotating a system key"),
 }
 ALSO = {  # additional checks worth running per seed (own property's check always runs)
  "C01-B": ["C14", "C03"], "C02-A": ["C14", "C01"], "C03-A": ["C01", "C14"], "C05-B": ["C01"], "C08-A": ["C16"], "C09-B": ["C08"], "C13-A": ["C18"],
  "C14-A": ["C01", "C02"], "C16-A": ["C08"], "C16-B": ["C15", "C09"], "C18-A": ["C13"], "C18-B": ["C07"], "C07-B": ["C18"], "C01-A": ["C04", "C09"], "C02-B": ["C09"],
- "C10-A": ["C07"], "C15-A": ["C16"], "C20-A": ["C05"], "C12-B": ["C11"], "C11-B": ["C12"],
+ "C10-A": ["C07"], "C07-C": ["C08"], "C01-C": ["C16", "C08"], "C03-D": ["C06", "C18"], "C09-C": ["C15"], "C09-D": ["C16"], "C03-C": ["C01"], "C15-A": ["C16"], "C20-A": ["C05"], "C12-B": ["C11"], "C11-B": ["C12"],
 }
 def sh(cmd, **kw):
     return subprocess.run(cmd, shell=True, stdout=subprocess.PIPE, stderr=subprocess.STDOUT, text=True, **kw)
